@@ -4,6 +4,7 @@
   Imports model files only (no Mathlib), so it links as a native executable.
 -/
 import Driver.Codec
+import Driver.Ctl
 open Svgdx Driver
 
 def errLine (e : Err) : String := joinFields [cs!"err", e.name.toList]
@@ -155,7 +156,10 @@ def handle (line : String) : String :=
   | op :: args =>
     match handleGeom op args with
     | some r => r
-    | none => "bad-op"
+    | none =>
+      match handleCtl op args with
+      | some r => r
+      | none => "bad-op"
   | [] => "bad-op"
 
 partial def loop (h : IO.FS.Stream) (out : IO.FS.Stream) : IO Unit := do
